@@ -1,7 +1,7 @@
 (* C11 -- Setup-tasks are lazy; teardowns run once, in reverse order.
    Statements only.  Proofs: Proofs/RunnerTr.v (teardown discipline of the serial runner),
    Proofs/RunnerP.v (a task starts only after its setup-tasks finished: that is C01 on the setup edge). *)
-From DoitV Require Import Base Dispatch Runner DispatchP DispatchInv RunnerP RunnerTr.
+From DoitV Require Import Base Dispatch Runner Parallel DispatchP DispatchInv RunnerP RunnerTr ParallelP ParallelTdP.
 Open Scope N_scope.
 
 (* serial runner: however the loop ended (all done, stopped by a failure, cycle error, interrupt),
@@ -34,6 +34,37 @@ Proof.
   unfold static_deps. rewrite !in_app_iff. auto.
 Qed.
 Print Assumptions C11_setup_before_task.
+
+(* MThreadRunner (thread flavour of the parallel model), every worker count, EVERY schedule: the reporter /
+   dep_manager events of the run are  body ++ [DB closed] ++ teardown reports ++ [error marker]  with the
+   teardown reports = exactly the tasks whose actions were started by any worker and that have teardown
+   actions, once each, in reverse order of execution; no teardown or close inside body *)
+Theorem C11_teardown_thread :
+  forall tasks wake_rank calc_rank continue_ always fuel nprocs sched selection,
+  exists body marker,
+    forallb (fun e => negb (is_fin_ev e)) body = true /\ forallb (fun e => negb (is_exec e)) marker = true /\
+    proj (fst (run_parallel tasks wake_rank calc_rank continue_ always false fuel nprocs sched selection))
+      = body ++ EClose :: map ETeardown (rev (filter (has_td tasks) (execs body))) ++ marker.
+Proof. exact thread_teardown. Qed.
+Print Assumptions C11_teardown_thread.
+
+(* ... and under every schedule of both parallel flavours a task starts only after its setup-tasks were
+   reported successful or up-to-date *)
+Theorem C11_setup_before_task_parallel :
+  forall tasks wake_rank calc_rank continue_ always proc fuel nprocs sched selection pre t w post s,
+    fst (run_parallel tasks wake_rank calc_rank continue_ always proc fuel nprocs sched selection) = pre ++ PStart t w :: post ->
+    In s (t_setup (get_task tasks t)) -> pgood pre s.
+Proof.
+  intros tasks wake_rank calc_rank continue_ always proc fuel nprocs sched selection pre t w post s E Hs.
+  apply (pcordered_split tasks _ (parallel_contained tasks wake_rank calc_rank continue_ always proc fuel nprocs sched selection) pre t w post E s).
+  apply ed_static. unfold static_deps. rewrite !in_app_iff. auto.
+Qed.
+Print Assumptions C11_setup_before_task_parallel.
+
+(* NOT PROVED: the per-worker teardown discipline of the process flavour (each worker process runs the
+   teardowns of the tasks IT executed when it receives the terminating job) and the laziness of
+   setup-tasks (a setup-task is processed only on behalf of a task that is going to run) -- correspondence
+   + oracle. *)
 
 Definition ex11 (n : name) : option task :=
   match n with
